@@ -958,6 +958,7 @@ def load_corpus() -> list[dict[str, Any]]:
     if d.is_dir():
         for p in sorted(d.glob("*.json")):
             c = json.loads(p.read_text())
+            c = dict(c.get("case", c))  # {"origin": ..., "case": {...}} or the bare case
             c["_file"] = p.name
             cases.append(c)
     return cases
@@ -1038,7 +1039,7 @@ def run(ctx) -> Result:
                             for s in CAT.SERIALIZERS:
                                 cases.append({"kind": "discipline", "recipe": name, "grammar": g, "cache": c, "moment": m, "serializer": s, "seed": ctx.seed + 7})
         budget_end = min(ctx.deadline, t_start + (2400 if ctx.thorough else 75))
-        n_workers = min(12, os.cpu_count() or 4)
+        n_workers = max(1, min(int(os.environ.get("VERIF_C20_WORKERS", "6")), os.cpu_count() or 4))
         # (workers must not be daemonic: MemoryFullCache starts a multiprocessing manager)
         from concurrent.futures import ProcessPoolExecutor
         from concurrent.futures import TimeoutError as FTimeout
